@@ -120,7 +120,7 @@ def run_job(job):
         if kind == 'exception' and rp['error'] and not rp['failed'] and rp['error'].split(':')[0] != detail.split(':')[0]:
             R['inconclusive'].append(dict(label=label, why='symbolic path raised %s but the concrete replay raised %s' % (detail[:200], rp['error'][:200])))
             return False
-        if rp['failed'] or (rp['error'] and not rp['invalid'] and kind in ('exception', 'sat', 'ground-fail', 'realize', 'unknown')
+        if rp['failed'] or (rp['error'] and not rp['invalid'] and kind in ('exception', 'sat', 'ground-fail')
                             and not _is_expected(rp['error'], expected)):
             R['violations'].append(dict(harness=hname, params=params, label=label, kind=kind, detail=detail,
                                         values=model, failed=rp['failed'][:6], error=rp['error'],
@@ -130,6 +130,18 @@ def run_job(job):
                                       detail=detail, values=model))
         return False
 
+    import signal
+
+    class JobTimeout(BaseException):
+        pass
+
+    def _alarm(*a):
+        raise JobTimeout()
+    try:
+        signal.signal(signal.SIGALRM, _alarm)
+        signal.alarm(int(opts.get('job_timeout', 1500)))
+    except Exception:
+        pass
     undo_canary = None
     if opts.get('canary'):
         from .mutate import Skipped
@@ -178,9 +190,15 @@ def run_job(job):
                     break
     except PathBound as e:
         R['inconclusive'].append(dict(label='path-bound', why=str(e)))
+    except JobTimeout:
+        R['inconclusive'].append(dict(label='job-timeout', why='job exceeded %s s' % opts.get('job_timeout', 1500)))
     except Exception as e:  # noqa: harness/engine error
         R['inconclusive'].append(dict(label='engine-error', why='%s: %s' % (type(e).__name__, e), trace=traceback.format_exc(limit=10)))
     finally:
+        try:
+            signal.alarm(0)
+        except Exception:
+            pass
         Ctx.cur = None
         if undo_canary is not None:
             undo_canary()
